@@ -721,7 +721,7 @@ func hasDuplicateMapKeys(text string) bool {
 const findingQuantifierNamedFunction = "C07-function-named-like-quantifier"
 
 // hasQuantifierNamedFunction: a function invocation whose name is any/all/none/single (the grammar
-// allows these tokens as symbolic names; `NONE(x IN'')` without a blank after IN is such a call).
+// allows these tokens as symbolic names; `NONE(x IN”)` without a blank after IN is such a call).
 func hasQuantifierNamedFunction(v reflect.Value, seen map[uintptr]bool) bool {
 	switch v.Kind() {
 	case reflect.Ptr:
